@@ -60,6 +60,22 @@ def run(ctx):
     ctx.check("conflict-helpers-excluded", f"{BI}:{makers[0][0] if makers else '?'}", bool(makers) and all("c.associated_filenames()" in norm(f) and "conflicts_related" in norm(f) for q, f in makers), "the helper-file set handed to _SmartAddHelper is built from the conflicts' associated_filenames()")
     ctx.info("skip_file", where, "AddAction.skip_file consulted: " + str(any(call_attr(c) == "skip_file" for c in calls_in(fn))))
 
+    # ---- the named directories that are walked -------------------------------------------------------
+    fgd = repo.func(BI, "_SmartAddHelper._gather_dirs_to_add")
+    wg = f"{BI}:_SmartAddHelper._gather_dirs_to_add"
+    alias = {norm(s_.targets[0]): norm(s_.value) for s_ in walk_own(fgd) if isinstance(s_, ast.Assign) and isinstance(s_.value, ast.Attribute)}
+    COMPONENT_AWARE = {"osutils.is_inside", "osutils.is_inside_any", "osutils.is_inside_or_parent_of_any"}
+    ifs = [n for n in walk_own(fgd) if isinstance(n, ast.If) and any(isinstance(y, ast.Yield) for b in n.body for y in ast.walk(b))]
+    ok = len(ifs) == 1
+    detail = ""
+    if ok:
+        tcalls = [alias.get(norm(c.func), norm(c.func)) for c in calls_in(ifs[0].test)]
+        detail = str(tcalls)
+        ok = bool(tcalls) and set(tcalls) <= COMPONENT_AWARE and not any(isinstance(x, (ast.Subscript,)) for x in ast.walk(ifs[0].test))
+    ctx.check("named-dirs-all-walked", wg, ok, "a named directory is left out of the walk only when a component-aware containment test (osutils.is_inside*) says it lies inside the previously yielded one", construct=detail, message=f"the containment test that drops a named directory from the walk is not component-aware ({detail}): with a string prefix test `dir2` counts as inside `dir` and is never added")
+    ys = [n for n in walk_own(fgd) if isinstance(n, ast.Yield)]
+    ctx.check("named-dirs-all-walked", wg, len(ys) == 1 and norm(ys[0].value).startswith("(path, inv_path, this_ie"), "what is yielded is the named directory's own entry")
+
     # ---------------- git --------------------------------------------------------------
     fn = repo.func(GW, "GitWorkingTree.smart_add")
     where = f"{GW}:GitWorkingTree.smart_add"
@@ -82,6 +98,27 @@ def run(ctx):
     ign = need(where, calling(g, attr="is_ignored"), "is_ignored(...)")
     ctx.check("named-paths-not-ignore-tested", where, all(in_listing(i) for i in ign), "is_ignored is applied only to paths found by listing a directory", message="explicitly named paths are subjected to the ignore test")
     ctx.check("nested-trees-excluded", where, unreachable_g({"subtree": True}, listing), "a nested tree is not descended into")
+    # every non-root directory that is about to be listed has been probed for a control directory first
+    probe = need(where, calling(g, name="_mod_controldir.ControlDirFormat.find_format"), "ControlDirFormat.find_format(transport)")
+    ud = [n.id for n in g.nodes if n.kind == "for" and norm(n.ast.iter) == "user_dirs"]
+    ctx.require(len(ud) == 1, f"{where}: loop over user_dirs not found")
+    g_nonroot = g.assume({"user_dir != ''": True, "user_dir == ''": False})
+    # entering the try block whose body performs the probe counts as probing (the statements before the probe in
+    # that body only build its argument)
+    tries = [t for t in ast.walk(fn) if isinstance(t, ast.Try) and any(g.nodes[p_].lineno >= t.body[0].lineno and g.nodes[p_].lineno <= t.body[-1].end_lineno for p_ in probe)]
+    ctx.require(len(tries) == 1, f"{where}: try block around the probe not found")
+    probe = set(probe) | {n.id for n in g.nodes if n.lineno and tries[0].body[0].lineno <= n.lineno <= tries[0].body[-1].end_lineno}
+    r = g_nonroot.reach([b for (b, l) in g_nonroot.succ[ud[0]] if l == "T"], avoid=set(probe), include_src=True)
+    hit = sorted(set(listing) & r)
+    ctx.check("nested-trees-excluded", where, not hit, "every directory other than the tree root is probed with ControlDirFormat.find_format before it is listed", message="a directory can be listed (and its content added) without having been probed for a nested control directory: nested trees of another format are swallowed into the outer tree", witness=g.show_path(g_nonroot.path([ud[0]], hit, avoid=set(probe))) if hit else None)
+    falses = [n for n in g.nodes if n.kind == "stmt" and isinstance(n.ast, ast.Assign) and norm(n.ast.targets[0]) == "subtree" and norm(n.ast.value) == "False"]
+    from ..astutil import handler_types
+
+    hs = [h for h in ast.walk(fn) if isinstance(h, ast.ExceptHandler)]
+    def _in_handler(n):
+        return any(h.lineno <= n.lineno <= h.end_lineno and set(t.split(".")[-1] for t in handler_types(h)) <= {"NotBranchError", "UnsupportedFormatError"} for h in hs)
+    outside = [n.id for n in falses if not _in_handler(n)]
+    ctx.check("nested-trees-excluded", where, not (set(outside) & g_nonroot.reachable_from_entry()), "for a non-root directory `subtree` becomes False only because the probe raised NotBranchError / UnsupportedFormatError")
     added_conf = [i for i in calling(g, attr="_index_add_entry") if in_listing(i)] + [i for i in calling(g, attr="append", recv="added") if in_listing(i)]
     ctx.check("conflict-helpers-excluded", where, unreachable_g({"subp in conflicts_related": True}, added_conf), "a conflict helper file is never added")
     ctx.check("conflict-helpers-excluded", where, "c.associated_filenames()" in norm(fn) and "self.conflicts()" in norm(fn), "the helper-file set is built from the conflicts' associated_filenames()")
@@ -89,6 +126,9 @@ def run(ctx):
 
 
 MUTANTS = [
+    Mutant("bzr: named directories dropped by string prefix", BI, "            if prev_dir is None or not is_inside([prev_dir], path):", "            if prev_dir is None or not path.startswith(prev_dir):", expect="named-dirs-all-walked"),
+    Mutant("git: nested-tree probe only when .git exists", GW, "                if user_dir != \"\":\n                    try:\n                        transport = _mod_transport", "                if user_dir != \"\" and os.path.lexists(os.path.join(abs_user_dir, \".git\")):\n                    try:\n                        transport = _mod_transport", expect="nested-trees-excluded"),
+    Mutant("neutral: containment helper called without the alias", BI, "            if prev_dir is None or not is_inside([prev_dir], path):", "            if prev_dir is None or not osutils.is_inside_or_parent_of_any([prev_dir], path):", neutral=True),
     Mutant("git: control filename test dropped", GW, "                    if self.is_control_filename(subp) or self.mapping.is_special_file(\n                        subp\n                    ):\n                        continue\n", "                    if self.mapping.is_special_file(subp):\n                        continue\n", expect="ANALYSIS-ERROR"),
     Mutant("git: ignore test applied to user-named paths", GW, "                abspath = self.abspath(filepath)\n                kind = file_kind(abspath)\n                if kind in (\"file\", \"symlink\"):", "                abspath = self.abspath(filepath)\n                if self.is_ignored(filepath) is not None:\n                    continue\n                kind = file_kind(abspath)\n                if kind in (\"file\", \"symlink\"):", expect="named-paths-not-ignore-tested"),
     Mutant("bzr: conflict helper files added", BI, "            if directory in self.conflicts_related:", "            if False and directory in self.conflicts_related:", expect="conflict-helpers-excluded"),
